@@ -23,6 +23,8 @@ pub enum Ev {
     /// the task's closure has returned and its snapshot is dropped
     TaskEnd(u64),
     Published,
+    /// what the publication just counted was about: (file id, version attached to it)
+    PublishedFor(u32, i32),
 }
 
 type Callback = Arc<dyn Fn(Ev) + Send + Sync>;
